@@ -198,6 +198,19 @@ func (vc *VC) isLocalSliceValue(v ssa.Value, depth int) bool {
 		if b, ok := x.Call.Value.(*ssa.Builtin); ok && b.Name() == "append" {
 			return vc.isLocalSliceValue(x.Call.Args[0], depth+1)
 		}
+	case *ssa.Slice:
+		// the whole of an array allocated by this function and sliced exactly once (a slice literal)
+		if al, ok := x.X.(*ssa.Alloc); ok && al.Heap {
+			n := 0
+			if refs := al.Referrers(); refs != nil {
+				for _, r := range *refs {
+					if _, isSl := r.(*ssa.Slice); isSl {
+						n++
+					}
+				}
+			}
+			return n == 1
+		}
 	}
 	return false
 }
